@@ -241,7 +241,7 @@ def compare_layouts(gen, inc, files, ftypes, cstructs, pairs, lang, user_headers
         for _ in range(len(mods) + 1):
             rest = []
             for f in order:
-                rc, so, se = run_cmd(["gfortran", "-cpp", "-ffree-form", "-w", "-c", os.path.join(gen, f), "-J", work, "-I", work,
+                rc, so, se = run_cmd(["gfortran", "-cpp", "-ffree-form", "-c", os.path.join(gen, f), "-J", work, "-I", work,
                                       "-o", os.path.join(work, f + ".o")], work)
                 if rc != 0:
                     rest.append(f)
